@@ -1208,6 +1208,42 @@ def run_history_case(case):
                         % (cls.__name__, ", ".join("%s=..." % k for k in kwargs),
                            "accepted" if accepted else "rejected", " then ".join(case["order"]))))
         return problems
+    if kind == "service-new":
+        # a service class whose parameters are those of its own __new__ (e.g. instances
+        # cached per key) while __init__ takes anything
+        import trio
+
+        from cobald.daemon import service
+        from cobald.interfaces import Controller
+
+        @service(flavour=trio)
+        class Keyed(Controller):
+            def __new__(cls, target, site, count=1):
+                return super().__new__(cls)
+
+            def __init__(self, *args, **kwargs):
+                super().__init__(args[0])
+
+            async def run(self):
+                pass
+
+        probes = [((), {"site": "a"}, True), (("a",), {}, True), (("a", 2), {}, True),
+                  (("a", 2, 3), {}, False), ((), {"bogus": 1}, False),
+                  (("a",), {"site": "b"}, False), ((), {"count": 2}, True)]
+        problems = []
+        for args, kwargs, binds in probes:
+            try:
+                Keyed.s(*args, **kwargs)
+                accepted = True
+            except TypeError:
+                accepted = False
+            if accepted != binds:
+                problems.append((
+                    "history:service-with-own-new:%s" % (
+                        "rejects-bindable" if binds else "accepts-unbindable"),
+                    "Keyed.s(*%r, **%r) was %s; __new__(cls, target, site, count=1)"
+                    % (args, kwargs, "accepted" if accepted else "rejected")))
+        return problems
     if kind == "falsy-elements":
         # elements that are falsy once constructed (an empty container-like pool, a decorator
         # that reports False) are elements like any other, under every grouping
@@ -1293,6 +1329,7 @@ HISTORY_CASES = [
     for falsy in (["End"], ["B"], ["C"], ["B", "C"], ["B", "C", "End"])
     for how in ("len", "bool") for tail in ("instance", "template")
 ] + [
+    {"part": "history", "kind": "service-new"},
     {"part": "history", "kind": "reserved-names",
      "names": ["ctor", "args", "kwargs", "leaf", "cls", "other", "pool"]},
 ]
